@@ -76,6 +76,14 @@ class Unknown:
     def __hash__(self): return hash(('unk', self.tag))
 
 
+def norm_tag(tag):
+    """(base tag, positive?) with nested ('not', t) wrappers peeled"""
+    pos = True
+    while isinstance(tag, tuple) and len(tag) == 2 and tag[0] == 'not':
+        tag = tag[1]; pos = not pos
+    return tag, pos
+
+
 class Record:
     """struct value: dict field -> value"""
     __slots__ = ('f', 'tag')
@@ -309,8 +317,8 @@ class Exec:
                     st2.decisions.append((B.cond, val, how))
                     if how == 'fork' and getattr(self.dom, 'correlate_unknowns', False) and isinstance(v, Unknown):
                         # remember the outcome: the same atom read again on this path (same tag = same state epoch) agrees
-                        if isinstance(v.tag, tuple) and len(v.tag) == 2 and v.tag[0] == 'not': st2.assumed[v.tag[1]] = not val
-                        else: st2.assumed[v.tag] = val
+                        t_, pos_ = norm_tag(v.tag)
+                        st2.assumed[t_] = val if pos_ else (not val)
                     st2.events.append(('branch', B.cond, (val, how, fr.fn.name)))
                     fr2.vals[B.cond.id] = val
                     vis = dict(visits); vis[tgt] = vis.get(tgt, 0) + 1
@@ -465,7 +473,7 @@ class Exec:
                 st1.events.append(('enter', n, clo.fn.name))
                 for st2, sub2, end in self._walk(sub, st1):
                     st2.events.append(('leave', n, clo.fn.name))
-                    if end in ('throw', 'noreturn'): dead.append((st2, dict(vals1), end)); continue
+                    if end in ('throw', 'noreturn', 'loop'): dead.append((st2, dict(vals1), end)); continue
                     r = sub2.ret
                     if isinstance(r, Ref): r = self.read(r.loc, st2)
                     if self.dom.after_closure(self, n, clo, r, st2) is False: continue
@@ -623,7 +631,7 @@ class Exec:
                         if isinstance(iv, Ref): st.store[key] = iv
                         else: st.store[key] = iv
                     else:
-                        if isinstance(iv, Ref): iv = self.read(iv.loc, st, init)
+                        if isinstance(iv, Ref) and not (init.k == 'this' or (init.k == 'unop' and init.op == '&')): iv = self.read(iv.loc, st, init)
                         st.store[key] = iv
                     st.events.append(('decl', n, (v['name'], st.store[key])))
                     for bi, b in enumerate(v.get('bindings') or []):
@@ -678,7 +686,8 @@ class Exec:
         if isinstance(v, Unknown):
             st = getattr(self, '_st', None)
             if st is not None and v.tag in st.assumed: return st.assumed[v.tag]
-            if st is not None and isinstance(v.tag, tuple) and len(v.tag) == 2 and v.tag[0] == 'not' and v.tag[1] in st.assumed: return not st.assumed[v.tag[1]]
+            t_, pos_ = norm_tag(v.tag)
+            if st is not None and t_ in st.assumed: return st.assumed[t_] if pos_ else (not st.assumed[t_])
         return v
 
     def assume(self, v, truth, st):
@@ -687,8 +696,10 @@ class Exec:
         if isinstance(v, bool): return v == truth
         if isinstance(v, Lin) and v.is_const(): return (v.c != 0) == truth
         if isinstance(v, Unknown):
-            if v.tag in st.assumed: return st.assumed[v.tag] == truth
-            st.assumed[v.tag] = truth
+            t_, pos_ = norm_tag(v.tag)
+            want = truth if pos_ else (not truth)
+            if t_ in st.assumed: return st.assumed[t_] == want
+            st.assumed[t_] = want
         return True
 
     def compare(self, op, l, r, n, st, fr):
@@ -710,7 +721,10 @@ class Exec:
     def _call(self, n, st, fr):
         d = n.d; q = d.get('calleeq') or ''
         if q in ('std::move', 'std::forward', 'std::as_const') and n.ns('args'):
-            return self._value(n.ns('args')[0], st, fr)
+            a0 = n.ns('args')[0]
+            if q == 'std::move' and a0 is not None and a0.k == 'ref' and (a0.type or '').replace('const ', '').startswith(('std::unique_ptr', 'unique_ptr')):
+                st.events.append(('moved-from', n, a0.name))      # ownership leaves the named smart pointer
+            return self._value(a0, st, fr)
         if q == '__assert_fail' or q.endswith('::__assert_fail'):
             st.events.append(('assert_fail', n, None)); return None
         if q == 'std::exchange' and len(n.ns('args')) == 2 and n.ns('args')[0] is not None:
@@ -785,6 +799,7 @@ class Exec:
         else:
             this_path = fr.this if callee.d.get('class') == fr.fn.d.get('class') and not callee.d.get('static') else ('static',)
         sub = Frame(callee, this_path, fr.depth + 1)
+        owned_params = []       # by-value std::unique_ptr parameters: destroyed (with what they hold) when the call is over
         for p, a in zip(callee.d['params'], args):
             if a is None: continue
             av = self._value(a, st, fr)
@@ -795,17 +810,22 @@ class Exec:
             else:
                 if isinstance(av, Ref): av = self.read(av.loc, st, a)
             st.store[('l', sub.id, p['decl'])] = av
+            if not p.get('isref') and (p.get('ctype') or '').startswith('std::unique_ptr'):
+                owned_params.append((p['name'], p['decl'], p['ctype'], av))
         if closure is not None:
             for dk, (mode, v) in closure.env.items():
                 st.store[('l', sub.id, dk)] = v if mode == 'val' else Ref(v)
         st.events.append(('enter', n, callee.name))
+        for pn, pd, pt, av in owned_params: st.events.append(('decl', n, (pn, av)))
         conts = []
         for st2, sub2, end in self._walk(sub, st):
             if end == 'throw':
                 st2.events.append(('callee-throw', n, callee.name))
+            for pn, pd, pt, av in owned_params: st2.events.append(('autodtor', None, (pn, pd, pt)))
             st2.events.append(('leave', n, callee.name))
             vals2 = dict(fr.vals); vals2[n.id] = sub2.ret
             conts.append((st2, vals2, end))
-        live = [(s, v) for s, v, e in conts if e not in ('throw', 'noreturn')]
-        dead = [(s, v, e) for s, v, e in conts if e in ('throw', 'noreturn')]
+        # a callee path cut by the unroll bound ('loop') has no return value: the caller's path ends there too
+        live = [(s, v) for s, v, e in conts if e not in ('throw', 'noreturn', 'loop')]
+        dead = [(s, v, e) for s, v, e in conts if e in ('throw', 'noreturn', 'loop')]
         return ('fork', live, dead)
